@@ -120,6 +120,8 @@ type params struct {
 	flushAlt    bool   // a Flush() after each line is an explorer choice
 	advances    int
 	delayB      bool
+	sinkBytes   int // defs.IntermediateBufferMaxTotalBytes (bytes per batch, same two places), default 4 MiB
+	sinkBatch   int // defs.IntermediateBufferMaxNumLogs (records per batch at the input and per key set at the orchestrator sink), default 500
 }
 
 type lineRec struct {
@@ -350,6 +352,14 @@ func makeRun(p params) explore.RunFunc {
 		logs.Echo = *flagLogs
 		defs.BufferMaxNumChunksInMemory = p.memCap
 		defs.BufferMaxNumChunksInQueue = 50
+		defs.IntermediateBufferMaxNumLogs = 500
+		if p.sinkBatch > 0 {
+			defs.IntermediateBufferMaxNumLogs = p.sinkBatch
+		}
+		defs.IntermediateBufferMaxTotalBytes = 4 * 1024 * 1024
+		if p.sinkBytes > 0 {
+			defs.IntermediateBufferMaxTotalBytes = p.sinkBytes
+		}
 		defs.ForwarderMaxPendingChunksForAck = 2
 		if p.ackWindow > 0 {
 			defs.ForwarderMaxPendingChunksForAck = p.ackWindow
@@ -1026,6 +1036,23 @@ func scenarios(prop string) []*explore.Scenario {
 	// one key set, four chunks, acknowledger queue of one: the sender can be blocked handing a transmitted chunk over
 	w1 := params{name: "1conn-4rec-1key/ackwindow1/restart", conns: [][]op{{L("appA"), L("appA"), L("appA"), L("appA")}}, gens: 2, chunkRecs: 1, memCap: 4, ackWindow: 1, opt: full, flushAlt: false, advances: 1}
 	add(w1, 1, 2)
+	if prop == "C01" || prop == "C19" {
+		// batch boundaries: with two records per batch a connection carrying two key sets ends exactly when one key set's
+		// per-connection buffer was flushed by size while the other key set still has a record pending (and the mirror image)
+		for i, ops := range [][]op{
+			{L("appB"), L("appA"), L("appA")},
+			{L("appA"), L("appB"), L("appA"), L("appB"), L("appA")},
+			{L("appA"), L("appA"), L("appB"), {kind: "settle"}, L("appB"), L("appA"), L("appB")},
+		} {
+			bb := params{name: fmt.Sprintf("2key-batch-boundary/%d", i), conns: [][]op{ops}, gens: 2, chunkRecs: 1, memCap: 2, opt: full, flushAlt: true, advances: 1, sinkBatch: 2}
+			add(bb, 1, 2)
+			// the same boundary reached by bytes: a batch is flushed once it holds more than one record's worth of bytes
+			by := bb
+			by.name = fmt.Sprintf("2key-bytes-boundary/%d", i)
+			by.sinkBatch, by.sinkBytes = 0, 150
+			add(by, 1, 2)
+		}
+	}
 	if prop == "C06" {
 		// routing and tagging in the composed agent with pooled-size records of two key sets: the pipeline's tag and ID must
 		// not depend on input buffers that are recycled later (one-variable tag template and two-part template)
@@ -1033,7 +1060,7 @@ func scenarios(prop string) []*explore.Scenario {
 		PA := func(app string) op { return op{kind: "line", app: app, pad: 1100} }
 		for _, tt := range []string{"$app", "t.$app"} {
 			r := params{name: "pooled-keys/tag=" + tt, conns: [][]op{{PA("appAA"), {kind: "settle"}, PA("appBB"), {kind: "settle"}, L("appAA"), L("appBB"), {kind: "settle"}, PA("appAA")}}, gens: 2, chunkRecs: 1, memCap: 2, opt: full, tagTemplate: tt, advances: 1}
-			add(r, 0, 1)
+			add(r, 1, 2)
 		}
 		return out
 	}
